@@ -4,7 +4,7 @@ from __future__ import annotations
 
 import ast
 
-from ..index import FuncInfo
+from ..index import ClassInfo, FuncInfo
 from ..nf import NF, Atom, Undecided, app, atoms_of, lift, nf_equal, single_atom, subst, sym
 from ..values import NONE, Cond, ListV, NoneV, Num, ObjV, OpaqueV, SliceV, StrV, TupleV, valkey
 from .c02 import call_roles, find_driver_call
@@ -66,7 +66,7 @@ def check(ctx):
     for n in ast.walk(pred.node):
         if isinstance(n, ast.Call) and isinstance(n.func, (ast.Name, ast.Attribute)):
             r = ctx.P.resolve_expr(pred.module, n.func)
-            if isinstance(r, FuncInfo) and r.cls is None and "threshold" in " ".join(r.params):
+            if isinstance(r, FuncInfo) and r.cls is None and ("threshold" in " ".join(r.params) or any(isinstance(x, ast.Call) and isinstance(x.func, ast.Attribute) and x.func.attr == "argmax" for x in ast.walk(r.node))):
                 ext = r
     if ext is None:
         ctx.undecided("C08.b PEAK-OF-RUN", "extractor", pred.loc(), "no changepoint-extraction helper taking a threshold is called by _predict")
@@ -195,7 +195,24 @@ def check_extract(ctx, ext: FuncInfo):
             elif "interval" in p or "min" in p:
                 args[p] = Num(mdi, (), "int")
             else:
-                raise Undecided(f"extractor parameter {p} has no recognised role")
+                # a record that bundles the remaining arguments: a NamedTuple named in the parameter's annotation
+                ann = next((a_.annotation for a_ in ext.node.args.args if a_.arg == p), None)
+                rc = ctx.P.resolve_expr(ext.module, ann) if isinstance(ann, (ast.Name, ast.Attribute)) else None
+                fields = ex._record_fields(rc) if isinstance(rc, ClassInfo) else None
+                if not fields:
+                    raise Undecided(f"extractor parameter {p} has no recognised role")
+                items = []
+                for fn_, _ in fields:
+                    if "threshold" in fn_:
+                        items.append(Num(thr, (), "float"))
+                    elif "interval" in fn_ or "min" in fn_:
+                        items.append(Num(mdi, (), "int"))
+                    else:
+                        raise Undecided(f"field {fn_} of the extractor's record {rc.name} has no recognised role")
+                rec = TupleV(items)
+                rec.names = [fn_ for fn_, _ in fields]
+                rec.record = rc
+                args[p] = rec
         return ex.call_function(ext, [], args, None, None)
 
     paths = run(ctx, ex, thunk)
@@ -473,7 +490,7 @@ def _name_summary(tag, nout=1):
 
 
 def _fmt_summary(ex, func, args, kwargs, so, node):
-    ex.emit("format_call", node, owner=func.cls.name if func.cls else None, args=args, kwargs=kwargs)
+    ex.emit("format_call", node, owner=func.cls.name if func.cls else getattr(getattr(func, "owner_cls", None), "name", None), args=args, kwargs=kwargs)
     return OpaqueV("formatted", {"kind": "frame"})
 
 
@@ -513,7 +530,12 @@ def check_wiring(ctx, cls, drv, ext):
     if x is None:
         ctx.violation(rule, "extract", cls.module.relpath, "predict does not run the changepoint extraction")
         return
-    bx = x.data["bound"]
+    bx = dict(x.data["bound"])
+    # a small record (NamedTuple) that bundles arguments counts as its named fields
+    for k_, v_ in list(bx.items()):
+        if isinstance(v_, TupleV) and getattr(v_, "names", None):
+            for nm_, it_ in zip(v_.names, v_.items):
+                bx[f"{k_}.{nm_}"] = it_
     vals = list(bx.values())
     ok_s = any(isinstance(v, Num) and v.nf is not None and single_atom(v.nf) is not None and single_atom(v.nf).kind == "app" and single_atom(v.nf).args[0] == "driver_out" for v in vals)
     ok_t = any(isinstance(v, Num) and v.nf is not None and nf_equal(v.nf, sym("threshold_")) for k, v in bx.items() if "threshold" in k)
